@@ -142,7 +142,9 @@ pub async fn main(args: &[String]) {
                             nontrivial.push(format!("{h}/{}/{qi}", c.seq));
                         }
                         if got != expected.answers[qi] {
-                            failures.push(json!({"class": "asof-differs", "what": format!("{family} query answers differently {clause} than when seq {} was current", want_seq),
+                            // a pattern constraining `state` is a family of its own (known_findings.json)
+                            let class = if template.contains("{state: \"") { "asof-state-constraint" } else { "asof-differs" };
+                            failures.push(json!({"class": class, "what": format!("{family} query answers differently {clause} than when seq {} was current", want_seq),
                                 "history": h, "after_statement": i, "query": text, "form": form,
                                 "recorded": expected.answers[qi], "replayed": got, "statements": stmts.clone()}));
                         }
@@ -200,11 +202,21 @@ pub async fn main(args: &[String]) {
     nontrivial.sort();
     nontrivial.dedup();
     let nfail = failures.len();
-    failures.truncate(12);
+    let mut failure_classes: BTreeMap<String, usize> = BTreeMap::new();
+    for f in &failures {
+        *failure_classes.entry(f["class"].as_str().unwrap_or("").to_string()).or_default() += 1;
+    }
+    // keep a few of every class
+    let mut kept: BTreeMap<String, usize> = BTreeMap::new();
+    failures.retain(|f| {
+        let n = kept.entry(f["class"].as_str().unwrap_or("").to_string()).or_default();
+        *n += 1;
+        *n <= 4
+    });
     let summary = json!({"kind": "summary", "histories": histories, "commits": commits, "replays": replays, "by_family": by_family,
                          "by_form": by_form, "later_change_ops": later_kinds, "distinct_nontrivial": nontrivial.len(),
                          "battery": BATTERY.iter().map(|b| b.1).collect::<Vec<_>>(), "samples": samples,
-                         "oracle_failures": nfail, "failures": failures});
+                         "oracle_failures": nfail, "failure_classes": failure_classes, "failures": failures});
     writeln!(out, "{summary}").unwrap();
     out.flush().unwrap();
 }
